@@ -104,8 +104,8 @@ class C13(Prop):
             p = r["path"]
             if p.startswith(PREFIX) or p + "/" == PREFIX:
                 continue
-            rp = {"driver": "TestVerifC13: GET <path> through websockets.Proxy with a recording wrapped handler", "path": p, "status": r["status"], "location": r["location"], "wrapped_saw": r["wrapped_saw"]}
-            if r["wrapped_saw"] != ["GET %s?q=1" % p]:
+            rp = {"driver": "TestVerifC13: <method> <path> through websockets.Proxy with a recording wrapped handler", "method": r.get("method", "GET"), "path": p, "status": r["status"], "location": r["location"], "wrapped_saw": r["wrapped_saw"]}
+            if r["wrapped_saw"] != ["%s %s?q=1" % (r.get("method", "GET"), p)]:
                 sig = "non-shim-path-not-forwarded:" + ("unclean-path-redirected-by-mux" if r["status"] == 301 and not is_clean(p.replace("%2F", "/")) else "other")
                 res.append((sig, "request for %s (outside the shim prefix) did not reach the wrapped handler unchanged: status %s location %r" % (p, r["status"], r["location"]), rp))
         return res
